@@ -220,6 +220,21 @@ Theorem C18_template_written_out : forall envs ss,
 Proof. exact template_written_out. Qed.
 Print Assumptions C18_template_written_out.
 
+(* The environment map behind {{ .Envs.K }} is built by splitting each "K=V" of os.Environ() at the FIRST '=':
+   for every key without '=' and EVERY value (further '=', trailing "==", empty, '=' first, any bytes),
+   whatever else the environment holds before it, looking K up gives V and {{ .Envs.K }} renders V. *)
+Theorem C18_env_split_first_equals : forall k v,
+  Forall (fun b => Byte.eqb b tpl_eq = false) k -> env_split (k ++ tpl_eq :: v) = Some (k, v).
+Proof. exact env_split_first_eq. Qed.
+Print Assumptions C18_env_split_first_equals.
+
+Theorem C18_env_value_rendered : forall rest k v,
+  Forall (fun b => Byte.eqb b tpl_eq = false) k ->
+  tpl_env (env_build (rest ++ [k ++ tpl_eq :: v])) k = v /\
+  tpl_render (env_build (rest ++ [k ++ tpl_eq :: v])) [TEnv k] = TOk (v ++ []).
+Proof. exact env_value_rendered. Qed.
+Print Assumptions C18_env_value_rendered.
+
 (* ---- non-vacuity ---- *)
 Example C18_example_loaded :
   let fb := fun (_ : bytes) (b : Z) => Some (3 * b) in
@@ -260,3 +275,8 @@ Example C18_example_dashboard_tls :
   flags_web_tls (hx "66616c7365") (hx "632e70656d") (hx "6b2e70656d") = Some None /\
   flags_web_tls (hx "78") [] [] = None.
 Proof. vm_compute. repeat split. Qed.
+
+Example C18_example_env :
+  env_build [hx "413d31"; hx "6e6f6571"; hx "544f4b3d6332566a636d56303d3d"; hx "453d"; hx "463d3d78"] =
+  [(hx "46", hx "3d78"); (hx "45", []); (hx "544f4b", hx "6332566a636d56303d3d"); (hx "41", hx "31")].
+Proof. vm_compute. reflexivity. Qed.
